@@ -15,6 +15,7 @@ mod report;
 mod rng;
 mod sched;
 mod selftest;
+mod signers;
 mod variant;
 mod world;
 
